@@ -179,8 +179,14 @@ def compare(pr, kind, info, a, b, ga, gb):
         else:
             want = (ra["Qc"], ra["Qh"], ra["Qr"])
         got = (rb["Qh"], rb["Qc"], rb["Qr"])
+        # known defect (C03-cold-sufficiency-sign): the cold side decides with the wrong sign of dt_cont whether a
+        # default utility is needed, so under mirroring a default utility appears on one side only
+        asym_cause = None
+        if C is not None and ((("HU" in ra["hot"]) != ("CU" in rb["cold"])) or (("CU" in ra["cold"]) != ("HU" in rb["hot"]))):
+            asym_cause = "cold_sufficiency_sign"
         if any(abs(x - y) > eps for x, y in zip(want, got)):
-            fails.append(("targets", f"{n}: (Qh,Qc,Qr) transformed {got}, expected {want} from the original")); continue
+            fails.append(("targets", f"{n}: (Qh,Qc,Qr) transformed {got}, expected {want} from the original"
+                          + ("; default utility present on one side of the mirror only" if asym_cause else ""), asym_cause)); continue
         # pinch temperatures
         if C is None:
             wp = (None if ra["hp"] is None else ra["hp"] + dT, None if ra["cp"] is None else ra["cp"] + dT)
@@ -188,7 +194,7 @@ def compare(pr, kind, info, a, b, ga, gb):
             wp = (None if ra["cp"] is None else C - ra["cp"], None if ra["hp"] is None else C - ra["hp"])
         gp = (rb["hp"], rb["cp"])
         if any((x is None) != (y is None) or (x is not None and abs(x - y) > 1e-6) for x, y in zip(wp, gp)):
-            fails.append(("pinch", f"{n}: pinch (hot,cold) transformed {gp}, expected {wp}"))
+            fails.append(("pinch", f"{n}: pinch (hot,cold) transformed {gp}, expected {wp}", asym_cause))
         # utility duties, utility by utility (mirror: only for utilities the user supplied; defaults are placed differently)
         if C is None:
             for side in ("hot", "cold"):
